@@ -396,9 +396,11 @@ def calculator_reuse_oracles(crys, chem, cutoff, nA, nB, nrng):
 
 
 # ---------------------------------------------------------------- (2) direct assembly + projection
-def _cmp(out, sig, what, code, direct, tol, extra=None, osrows=None, nterms=1):
+def _cmp(out, sig, what, code, direct, tol, extra=None, osrows=None, nterms=1, overcount=None):
     """osrows: indices of origin-state vector stars; when every differing entry lies on such a row (diagonal entry
-    for a matrix) the signature gets the suffix ':OSvstar'."""
+    for a matrix) the signature gets the suffix ':OSvstar'.  overcount: the value the known overcount of the
+    origin-state escape (once per vector star carried by the star of the initial state) predicts; the suffix is then
+    ':OSvstar:overcount' when the code equals that prediction and ':OSvstar:mismatch' for anything else."""
     code, direct = np.asarray(code, dtype=float), np.asarray(direct, dtype=float)
     if code.shape != direct.shape:
         out.append((sig + ':shape', '%s: shapes %s vs %s' % (what, code.shape, direct.shape), {}))
@@ -419,6 +421,10 @@ def _cmp(out, sig, what, code, direct, tol, extra=None, osrows=None, nterms=1):
             if len(bad) and all(int(b[0]) in osrows and (code.ndim < 2 or code.shape[0] != code.shape[1] or b[0] == b[1])
                                 for b in bad):
                 sig = sig + ':OSvstar'
+                if overcount is not None:
+                    pdev = np.abs(code - np.asarray(overcount, dtype=float)).max()
+                    sig += ':overcount' if pdev <= tol * scale else ':mismatch'
+                    d['overcount_prediction'] = float(np.asarray(overcount, dtype=float)[idx])
         out.append((sig, '%s: code %.12g vs directly assembled %.12g at %s (%d entries differ)'
                     % (what, code[idx], direct[idx], list(map(int, idx)), d['nbad']), d))
 
@@ -447,6 +453,8 @@ def projection_oracles(c, nrng, tol=1e-10):
         if PS.iszero(): originstate[PS.i] = s
     tag = 'originstates' if len(c.OSindices) > 0 else 'plain'
     osrows = {n for n in range(nv) if states[vk.vecpos[n][0]].iszero()}
+    nvs_of_star = {}
+    for p in vk.vecpos: nvs_of_star[int(ss.index[p[0]])] = nvs_of_star.get(int(ss.index[p[0]]), 0) + 1
 
     # ---- Green function: class values symmetric under exchange of the end points
     gss = c.GFstarset
@@ -488,6 +496,7 @@ def projection_oracles(c, nrng, tol=1e-10):
         A = [sp.lil_matrix((ns, ns)) for _ in range(nk)]; deg = np.zeros((nk, ns)); gb = np.zeros((nk, ns, dim)); dd = np.zeros((nk, dim, dim))
         A0 = [sp.lil_matrix((ns, ns)) for _ in range(n0)]; deg0 = np.zeros((n0, ns)); gb0 = np.zeros((n0, ns, dim)); dd0 = np.zeros((n0, dim, dim))
         badstar = 0
+        over0 = np.zeros((n0, ns))    # known overcount: extra origin-state escapes, (vector stars on the star of IS) - 1 per jump
         for k, (jl, t) in enumerate(zip(jn, jt)):
             for (IS, FS), dx in jl:
                 A[k][IS, FS] += 1.; deg[k, IS] += 1.; gb[k, IS] += dx; dd[k] += .5 * np.outer(dx, dx)
@@ -498,6 +507,7 @@ def projection_oracles(c, nrng, tol=1e-10):
                 else:
                     OS = originstate.get(states[IS].i)
                     if OS is not None:
+                        over0[t, OS] += nvs_of_star[int(ss.index[IS])] - 1
                         # the omega0 jump of the vacancy onto the solute site lands on the origin state; its reverse
                         # leaves the origin state with the opposite displacement
                         A0[t][IS, OS] += 1.; A0[t][OS, IS] += 1.; deg0[t, OS] += 1.; gb0[t, OS] -= dx
@@ -513,7 +523,8 @@ def projection_oracles(c, nrng, tol=1e-10):
         _cmp(out, '%s:rate0expansion:%s' % (label, tag), label + ' omega0 reference rate expansion per jump type',
              exp0, np.stack([proj(A0[t]) for t in range(n0)], axis=2), tol)
         _cmp(out, '%s:rate0escape:%s' % (label, tag), label + ' omega0 reference escape expansion per jump type',
-             esc0arr, -np.einsum('si,ks->ik', U2, deg0), tol, osrows=osrows)
+             esc0arr, -np.einsum('si,ks->ik', U2, deg0), tol, osrows=osrows,
+             overcount=(-np.einsum('si,ks->ik', U2, deg0 + over0) if is2 else None))
         _cmp(out, '%s:bias1expansion:%s' % (label, tag), label + ' bias expansion per class',
              b1arr, np.stack([projv(gb[k]) for k in range(nk)], axis=1) if nk else np.zeros((nv, 0)), tol)
         _cmp(out, '%s:bias0expansion:%s' % (label, tag), label + ' omega0 reference bias expansion per jump type',
@@ -534,7 +545,8 @@ def projection_oracles(c, nrng, tol=1e-10):
         D0 = -np.einsum('ks,ks->s', deg0, esc0[:, wyck_vac])
         code = np.dot(exp0, om0) + np.diag([np.dot(esc0arr[i, :], esc0[:, c.kin2vacancy[vstar2kin[i]]]) for i in range(nv)])
         _cmp(out, '%s:rate0matrix:%s' % (label, tag), label + ' omega0 reference rate matrix for random rates',
-             code, proj(W0 + sp.diags(D0)), tol, osrows=osrows, nterms=2 * n0 + 1)
+             code, proj(W0 + sp.diags(D0)), tol, osrows=osrows, nterms=2 * n0 + 1,
+             overcount=(proj(W0 + sp.diags(D0 - np.einsum('ks,ks->s', over0, esc0[:, wyck_vac]))) if is2 else None))
         bcode = np.array([sum(b1arr[i, k] * esc[k].get(vstar2kin[i], 0.) for k in range(nk)) for i in range(nv)])
         bdir = b.copy()
         _cmp(out, '%s:biasvector:%s' % (label, tag), label + ' bias vector for random escape rates', bcode, projv(bdir), tol, nterms=nk + 1)
@@ -563,3 +575,22 @@ def projection_oracles(c, nrng, tol=1e-10):
             if attr == 'i':
                 _cmp(out, 'OS_VB', 'origin-state vector basis', c.OS_VB, VB, tol)
     return out
+
+
+def om2_escape_overcount_prediction(c):
+    """om2_om0escape as the known overcount predicts it: projection of the directly assembled escapes, the origin-state
+    escape of every exchange jump counted once per vector star carried by the star of its initial state."""
+    ss, vk, dim = c.kinetic, c.vkinetic, c.crys.dim
+    states, ns, n0 = ss.states, ss.Nstates, len(c.om0_jn)
+    U = basis_array(vk, ns, dim)
+    U2 = np.einsum('sai,sai->si', U, U)
+    origin = {PS.i: s for s, PS in enumerate(states) if PS.iszero()}
+    nvs = {}
+    for p in vk.vecpos: nvs[int(ss.index[p[0]])] = nvs.get(int(ss.index[p[0]]), 0) + 1
+    deg = np.zeros((n0, ns))
+    for jl, t in zip(c.om2_jn, c.om2_jt):
+        for (IS, FS), dx in jl:
+            deg[t, IS] += 1.
+            OS = origin.get(states[IS].i)
+            if OS is not None: deg[t, OS] += nvs[int(ss.index[IS])]
+    return -np.einsum('si,ks->ik', U2, deg)
